@@ -17,6 +17,7 @@ VIOL = "obj:vsg.violation.New"
 FIXONLY = "opt[rec{fix?:rec{rule?:dict[str,list[val]]}}]"
 
 GHOSTS = {
+    "nphases": "int",  # number of phases the last check_rules visited (so that callers can name it)
     "nerr": "int",
     "oplog": "list[str]",
     "fixlog": "list[" + VIOL + "]",
@@ -112,14 +113,30 @@ CONTRACTS = {
     ),
     "vsg.rule.Rule._fix_violation": dict(
         types={"oViolation": VIOL},
-        modifies=["ghost:fixlog"],
+        # a fix rewrites the tokens of its own violation: their values, indents and the region's token list
+        modifies=["ghost:fixlog", "heap:item.value", "heap:item.indent", "heap:New.lTokens"],
         ensures=["fixlog == old(fixlog) + [oViolation]"],
         trusted="abstract contract of a virtual method: what a fix does to the tokens of its own violation is the subject of C01-C03, not of the gating proofs",
     ),
-    "vsg.vhdlFile.vhdlFile.vhdlFile.set_token_indent": dict(modifies=["ghost:oplog"], ensures=["oplog == old(oplog) + ['indent']"], trusted="ghost log stub"),
-    "vsg.vhdlFile.vhdlFile.vhdlFile.fix_blank_lines": dict(modifies=["ghost:oplog"], ensures=["oplog == old(oplog) + ['blank']"], trusted="ghost log stub"),
-    "vsg.vhdlFile.vhdlFile.vhdlFile.fix_trailing_whitespace": dict(modifies=["ghost:oplog"], ensures=["oplog == old(oplog) + ['trail']"], trusted="ghost log stub"),
-    "vsg.vhdlFile.vhdlFile.vhdlFile.update_token_map": dict(modifies=["ghost:oplog"], ensures=["oplog == old(oplog) + ['map']"], trusted="ghost log stub"),
+    "vsg.vhdlFile.vhdlFile.vhdlFile.set_token_indent": dict(modifies=["ghost:oplog", "heap:item.indent"], ensures=["oplog == old(oplog) + ['indent']"], trusted="ghost log stub"),
+    # the two normalisers that run after phase 1 are verified (their bodies call vsg.vhdlFile.utils.fix_blank_lines /
+    # fix_trailing_whitespace, whose contracts are in contracts/vhdlfile.py): nothing but blank-line markers and white space
+    # in front of a line break is added or dropped; the event for the operation log is ghost code
+    "vsg.vhdlFile.vhdlFile.vhdlFile.fix_blank_lines": dict(
+        modifies=["ghost:oplog", "self.lAllObjects"],
+        ghost_exit={"oplog": "oplog + ['blank']"},
+        ensures=["oplog == old(oplog) + ['blank']", "nonblank(self.lAllObjects) == nonblank(old(self.lAllObjects))", "crs(self.lAllObjects) == crs(old(self.lAllObjects))"],
+    ),
+    "vsg.vhdlFile.vhdlFile.vhdlFile.fix_trailing_whitespace": dict(
+        modifies=["ghost:oplog", "self.lAllObjects"],
+        ghost_exit={"oplog": "oplog + ['trail']"},
+        ensures=["oplog == old(oplog) + ['trail']", "nonblank(self.lAllObjects) == nonblank(old(self.lAllObjects))", "crs(self.lAllObjects) == crs(old(self.lAllObjects))", "n_blank(self.lAllObjects) == n_blank(old(self.lAllObjects))"],
+    ),
+    "vsg.vhdlFile.vhdlFile.vhdlFile.update_token_map": dict(
+        modifies=["ghost:oplog", "self.oTokenMap"],
+        ghost_exit={"oplog": "oplog + ['map']"},
+        ensures=["oplog == old(oplog) + ['map']", "self.oTokenMap == INDEX(self.lAllObjects)"],
+    ),
     # ------------------------------------------------------------------ vsg/rule.py
     "vsg.rule.Rule._filter_out_fix_only_violations": dict(
         types={"dFixOnly": FIXONLY},
@@ -136,12 +153,15 @@ CONTRACTS = {
     ),
     "vsg.rule.Rule.fix": dict(
         types={"oFile": "obj:vsg.vhdlFile.vhdlFile.vhdlFile", "dFixOnly": FIXONLY},
-        modifies=["self.violations", "self.had_violations", "ghost:oplog", "ghost:fixlog"],
+        modifies=["self.violations", "self.had_violations", "ghost:oplog", "ghost:fixlog", "oFile.lAllObjects", "oFile.oTokenMap", "heap:item.value", "heap:item.indent", "heap:New.lTokens"],
         ensures=[
             # a rule configured 'fixable: false' does nothing at all
             "implies(not self.fixable, oplog == old(oplog) and fixlog == old(fixlog) and self.violations == old(self.violations) and self.had_violations == old(self.had_violations))",
             "implies(self.fixable, oplog == old(oplog) + ['A:' + self.unique_id, 'U'])",
             "implies(self.fixable, self.violations == [])",
+            # the 'had violations' flag is set exactly when this call handed a violation to _fix_violation (it is sticky)
+            "self.had_violations == (old(self.had_violations) or len(fixlog) > len(old(fixlog)))",
+            "len(fixlog) >= len(old(fixlog))",
             # --fix_only: nothing listed for this rule => nothing is fixed; lines listed => only violations on those lines are fixed
             "implies(dFixOnly is not None and not %s, fixlog == old(fixlog))" % LISTED,
             "implies(dFixOnly is not None and %s and 'all' not in %s, forall(lambda k: fixlog[k].iLine in %s, len(old(fixlog)), len(fixlog)))" % (LISTED, LINES, LINES),
@@ -197,32 +217,42 @@ CONTRACTS.update(
         # ------------------------------------------------------------------ rule_list.fix  (C13 F1/F2, C03 gating)
         "vsg.rule_list.rule_list.fix": dict(
             types={"iFixPhase": "int", "lSkipPhase": SKIP, "dFixOnly": FIXONLY},
-            modifies=["self.had_violations", "heap:Rule.violations", "heap:Rule.had_violations", "ghost:oplog", "ghost:fixlog"],
+            # a fresh rule list: nothing has been fixed by it or by its rules yet (what rule_list.__init__ / Rule.__init__ establish)
+            requires=["not self.had_violations", "forall(lambda k: not self.rules[k].had_violations, 0, len(self.rules))"],
+            locals={"oRule": RULE},
+            modifies=["self.had_violations", "heap:Rule.violations", "heap:Rule.had_violations", "ghost:oplog", "ghost:fixlog", "heap:vhdlFile.lAllObjects", "heap:vhdlFile.oTokenMap", "heap:item.value", "heap:item.indent", "heap:New.lTokens"],
             ensures=[
+                # C04c / C08: the flag that decides whether the file is written back is set exactly when some violation was
+                # handed to a _fix_violation (so: nothing fixed <=> nothing written, something fixed <=> written)
+                "self.had_violations == (len(fixlog) > len(old(fixlog)))",
+                "len(fixlog) >= len(old(fixlog))",
                 # exactly the phases 1..iFixPhase that are not skipped, sub-phases 0..5 in order, enabled rules only,
                 # rules with prerequisites last; error-type rules are fixed ('A','U'), other severities only analysed ('A'),
                 # rules configured fixable:false produce no event at all; normalisers after phase 1, indent before phase 4
-                "oplog == old(oplog) + fix_phases(irange(1, iFixPhase + 1), self.rules, lSkipPhase)",
+                "oplog == old(oplog) + fix_phases(irange(1, iFixPhase + 1), self.rules, (lSkipPhase if lSkipPhase is not None else []))",
             ],
             loops={
-                1: dict(invariant=["oplog == old(oplog) + fix_phases(irange(1, 1 + _i), self.rules, lSkipPhase)"]),
-                2: dict(invariant=["oplog == entry(oplog) + fix_subphases(irange(0, _i), self.rules, phase)"]),
-                3: dict(invariant=["oplog == entry(oplog) + fix_events(lRules[:_i])"]),
+                1: dict(invariant=["oplog == old(oplog) + fix_phases(irange(1, 1 + _i), self.rules, lSkipPhase)", "self.had_violations == (len(fixlog) > len(old(fixlog)))", "forall(lambda k: implies(self.rules[k].had_violations, len(fixlog) > len(old(fixlog))), 0, len(self.rules))", "len(fixlog) >= len(entry(fixlog))"]),
+                2: dict(invariant=["oplog == entry(oplog) + fix_subphases(irange(0, _i), self.rules, phase)", "self.had_violations == (len(fixlog) > len(old(fixlog)))", "forall(lambda k: implies(self.rules[k].had_violations, len(fixlog) > len(old(fixlog))), 0, len(self.rules))", "len(fixlog) >= len(entry(fixlog))"]),
+                3: dict(invariant=["oplog == entry(oplog) + fix_events(lRules[:_i])", "self.had_violations == (len(fixlog) > len(old(fixlog)))", "forall(lambda k: implies(self.rules[k].had_violations, len(fixlog) > len(old(fixlog))), 0, len(self.rules))", "len(fixlog) >= len(entry(fixlog))"]),
             },
         ),
         # ------------------------------------------------------------------ rule_list.check_rules  (C13 G1-G4)
         "vsg.rule_list.rule_list.check_rules": dict(
             types={"bAllPhases": "bool", "lSkipPhase": SKIP},
-            modifies=["self.iNumberRulesRan", "self.lastPhaseRan", "self.violations", "heap:Rule.violations", "ghost:oplog", "ghost:nerr"],
+            modifies=["self.iNumberRulesRan", "self.lastPhaseRan", "self.violations", "heap:Rule.violations", "ghost:oplog", "ghost:nerr", "ghost:nphases"],
+            ghost_exit={"nphases": "_n1"},
+            locals={"oRule": RULE},
             ensures=[
+                "nphases == _n1",
                 # G1/G2: the analysed rules are exactly the enabled rules of the non-skipped phases 1.._n1, each once,
                 #        in (phase, sub-phase, list) order   (_n1 = number of phases visited)
-                "oplog == old(oplog) + check_phases(irange(1, 1 + _n1), self.rules, lSkipPhase)",
+                "oplog == old(oplog) + check_phases(irange(1, 1 + _n1), self.rules, (lSkipPhase if lSkipPhase is not None else []))",
                 "1 <= _n1 and _n1 <= 7",
                 # G3: all phases with --all_phases; otherwise stop after the FIRST phase with an error-severity violation
                 "implies(bAllPhases, _n1 == 7)",
                 "implies(_n1 < 7, self.violations and not bAllPhases)",
-                "implies(not bAllPhases and self.violations, lasthead(1, nerr) == old(nerr) and lasthead(1, oplog) == old(oplog) + check_phases(irange(1, _n1), self.rules, lSkipPhase))",
+                "implies(not bAllPhases and self.violations, lasthead(1, nerr) == old(nerr) and lasthead(1, oplog) == old(oplog) + check_phases(irange(1, _n1), self.rules, (lSkipPhase if lSkipPhase is not None else [])))",
                 # G4: the exit flag is set exactly when an error-severity violation was produced (warnings never set it)
                 "self.violations == (nerr > old(nerr))",
                 "self.iNumberRulesRan == len(oplog) - len(old(oplog))",
